@@ -513,6 +513,45 @@ def markup_text_cases(ctx, cs):
     return n
 
 
+def decoded_elsewhere_cases(ctx, cs):
+    """The very same payload bytes are decoded in two places: inside a load with the file's charset, and elsewhere in the
+    process (MetaMessage.from_bytes, a load of another file in latin1) with the default.  Each place gets its own reading,
+    in either order, however often."""
+    n = 0
+    rng = random.Random(f'{cs}:elsewhere')
+    al = [c for c in alphabet(cs) if ord(c) > 127] or alphabet(cs)
+    for rep in range(4):
+        text = ''.join(rng.choice(al) for _ in range(rng.choice((1, 3, 8))))
+        payload = text.encode(cs)
+        as_latin1 = payload.decode('latin1')
+        for t in ('lyrics', 'text', 'track_name'):
+            tb = rmeta.SPECS[t][0]
+            attr = rmeta.SPECS[t][1][0]
+            case = {'kind': 'decoded-elsewhere', 'charset': cs, 'type': t, 'text': text}
+            b, _ = smf.encode_file(1, 96, [[('meta', 0, tb, list(payload)), ('meta', 0, 0x2F, [])]])
+            try:
+                order = ('file', 'elsewhere', 'file', 'latin1-file', 'file', 'elsewhere') if rep % 2 else ('elsewhere', 'file', 'elsewhere', 'file')
+                MidiFile(file=io.BytesIO(b))                         # some load has happened in this process before
+                for step, where in enumerate(order):
+                    if where == 'file':
+                        got = getattr(MidiFile(file=io.BytesIO(b), charset=cs).tracks[0][0], attr)
+                        want = text
+                    elif where == 'latin1-file':
+                        got = getattr(MidiFile(file=io.BytesIO(b)).tracks[0][0], attr)
+                        want = as_latin1
+                    else:
+                        got = getattr(MetaMessage.from_bytes([0xFF, tb, len(payload)] + list(payload)), attr) if len(payload) < 128 else as_latin1
+                        want = as_latin1
+                    ctx.check('loaded text == original', got == want, f'same-bytes-decoded-{where}:{cs}', dict(case, step=step, order=list(order)),
+                              lambda: {'got': got, 'want': want})
+                check_probe(ctx, 'default charset after successful call', f'leak-after-load:{cs}', case)
+            except Exception as exc:
+                ctx.fail('loaded text == original', f'decoded-elsewhere:{type(exc).__name__}:{cs}', case, f'{type(exc).__name__}: {exc}')
+                restore_default()
+            n += 1
+    return n
+
+
 def context_manager_case(ctx, cs):
     """MidiFile is also a context manager ("kept around since it was used in examples"): the charset
     must not be in force inside or after the block, nor after a bare __enter__()."""
@@ -810,6 +849,10 @@ def run(ctx):
             ctx.nontrivial(('nested', o, i))
             k += 1
     for ci, cs in enumerate(CHARSETS):
+        if (ci + 9) % N == sh and cs not in ('latin1', 'ascii'):
+            k_ = decoded_elsewhere_cases(ctx, cs)
+            ctx.nontrivial(None, k_)
+            k += k_
         if (ci + 5) % N == sh:
             k_ = markup_text_cases(ctx, cs)
             ctx.nontrivial(None, k_)
